@@ -87,7 +87,7 @@ def theLiftTables : LiftTables :=
 open Rspirv.Generated.Operands in
 def theBTables : BTables :=
   { opFunction := op_Function, opFunctionEnd := op_FunctionEnd, opFunctionParameter := op_FunctionParameter
-    opLabel := op_Label, vFunctionControl := v_FunctionControl, vIdRef := v_IdRef
+    opLabel := op_Label, opName := op_Name, vFunctionControl := v_FunctionControl, vIdRef := v_IdRef
     magic := Rspirv.Generated.Spirv.const_MAGIC_NUMBER
     defaultVersion := Rspirv.Generated.Spirv.const_MAJOR_VERSION * 65536 + Rspirv.Generated.Spirv.const_MINOR_VERSION * 256 }
 
